@@ -1,4 +1,4 @@
-import TfPwaV.Proofs.PhspTree
+import TfPwaV.Proofs.PhspShell
 /-!
 # C10 (continued) — generated momenta are on shell and add up to the parent at rest
 
@@ -126,23 +126,63 @@ theorem chain_consumes (t : MTree) (pis rest : List (List V4)) (forest : List PT
   obtain ⟨used, hu, hl, _⟩ := restruct_sum t pis forest rest h
   rw [hu, List.length_append, hl]
 
-/-- FULL: every final-state momentum of `t.restruct pis` is on the mass shell of its particle, for every nesting,
-whenever every boost is in the regular branch.
-PROVED here (`_partial`): one `tree_boost` step on a whole sub-forest of arbitrary depth — the leaves below a nested
-daughter stay on their mass shells when the sub-forest is boosted by the daughter's momentum `p0` (regular branch).
-MISSING: the composition over the whole tree with the bookkeeping of leaf masses (the analogue of
-`chain_momentum_sum`, which is proved); validated by the correspondence (`chain` op) and the search on nested
-structures up to depth 4. -/
-theorem chain_on_shell_partial (p0 : V4) (forest : List PTree) (d : List ℝ) (h1 : eps < p0.boostVector.norm2)
+/-- One `tree_boost` step on a whole sub-forest of arbitrary depth keeps the leaves on their mass shells
+(regular branch). -/
+theorem tree_boost_forest_shell (p0 : V4) (forest : List PTree) (d : List ℝ) (h1 : eps < p0.boostVector.norm2)
     (h2 : p0.boostVector.norm2 < 1) (hl : List.Forall₂ OnShell (leavesL forest) d) :
     List.Forall₂ OnShell (leavesL (boostByL p0 forest)) d := by
   rw [tree_boost_leaves]
   exact tree_boost_shell p0 _ d h1 h2 hl
 
+/-- `specs` lists the nodes of a struct with their daughters in exactly the order of the model's `gens`
+(`_get_generator`): the hypotheses of the next theorems are indexed like the generator outputs. -/
+theorem chain_specs_are_gens (t : MTree) : t.specs.map (fun s => (s.1, s.2.map MTree.mass)) = t.gens :=
+  specs_gens t
+
+/-- **Nested chains, full structure, every nesting**: for every struct `node m ch` (any depth, any number of
+daughters per node, all node masses positive) and every list `pis` of generator outputs (one per node, in
+`_get_generator` order) such that each output adds up to `(m_node,0,0,0)`, has positive energies, is on the mass
+shells of the node's daughters, and the momentum of every *nested* daughter is in the regular branch
+`ε < |v|² < 1` of `LorentzVector.boost` (`GoodNode`): if `_restruct_pi` consumes exactly these outputs then the
+returned momentum tree realises the struct (`MatchL`): every final particle is on its mass shell, every
+intermediate state is on its fixed mass shell and equals the sum of the final-state momenta below it; and all
+final-state momenta add up to `(m,0,0,0)`.  Structural induction over the tree. -/
+theorem chain_structure (m : ℝ) (ch : List MTree) (pis : List (List V4)) (forest : List PTree)
+    (h : (MTree.node m ch).restruct pis = some (forest, [])) (hpos : (MTree.node m ch).posNodes)
+    (hgood : List.Forall₂ GoodNode (MTree.node m ch).specs pis) :
+    sumV4 (leavesL forest) = ⟨m, 0, 0, 0⟩ ∧ MatchL ch forest := by
+  obtain ⟨used, hu, _, hs⟩ := restruct_match (.node m ch) pis forest [] h
+  have : used = pis := by simpa using hu.symm
+  subst this
+  exact hs hpos hgood
+
+/-- **Nested chains, mass shell, every nesting**: under the hypotheses of `chain_structure` every final-state
+momentum (depth-first order, as `strip_tree` returns them) is on the mass shell of its particle. -/
+theorem chain_on_shell (m : ℝ) (ch : List MTree) (pis : List (List V4)) (forest : List PTree)
+    (h : (MTree.node m ch).restruct pis = some (forest, [])) (hpos : (MTree.node m ch).posNodes)
+    (hgood : List.Forall₂ GoodNode (MTree.node m ch).specs pis) :
+    List.Forall₂ OnShell (leavesL forest) (MTree.node m ch).leafMasses := by
+  simp only [MTree.leafMasses]
+  exact matchL_leaves ch forest (chain_structure m ch pis forest h hpos hgood).2
+
+/-- **Intermediate states at their fixed mass**: in a momentum tree that realises a struct, the final-state
+momenta below an intermediate state of mass `m'` have invariant mass `m'` (all nestings; combine with
+`chain_structure`, whose `MatchL` contains this for every node at every depth). -/
+theorem chain_intermediate_mass (m' : ℝ) (c : List MTree) (p : V4) (f : List PTree)
+    (h : Match (.node m' c) (.node p f)) : OnShell (sumV4 (leavesL f)) m' := by
+  simp only [Match] at h
+  rw [h.2.1]
+  exact h.1
+
 -- non-vacuity of `chain_momentum_sum`: 1 → two massless daughters, back to back
 example : (MTree.node 1 [.leaf 0, .leaf 0]).restruct [[⟨0.5, 0, 0, 0.5⟩, ⟨0.5, 0, 0, -0.5⟩]]
       = some ([.leaf ⟨0.5, 0, 0, 0.5⟩, .leaf ⟨0.5, 0, 0, -0.5⟩], []) := by
   simp [MTree.restruct, restructL, attach]
+example : GoodNode (1, [.leaf 0, .leaf 0]) [⟨0.5, 0, 0, 0.5⟩, ⟨0.5, 0, 0, -0.5⟩] := by
+  refine ⟨?_, ?_, ?_⟩
+  · simp [sumV4, V4.add]; norm_num
+  · intro p hp; simp at hp; rcases hp with h | h <;> rw [h] <;> norm_num
+  · simp [OnShell, V4.m2, V4.dot, MTree.mass]
 example : GoodOut (1, [0, 0]) [⟨0.5, 0, 0, 0.5⟩, ⟨0.5, 0, 0, -0.5⟩] := by
   refine ⟨?_, ?_, ?_⟩
   · simp [sumV4, V4.add]; norm_num
@@ -167,5 +207,22 @@ example : RegChain 1.0 (([0.1, 0.2, 0.3] : List ℝ).reverse.headD 0) true [0.6]
   rw [hq]
   unfold g2 p2Of eps
   norm_num
+
+-- non-vacuity of `chain_structure` with a genuinely nested, regular boost: 1 → A(0.6 → γγ) γ
+example : ∃ forest, (MTree.node 1 [.node 0.6 [.leaf 0, .leaf 0], .leaf 0]).restruct
+      [[⟨0.3, 0, 0, 0.3⟩, ⟨0.3, 0, 0, -0.3⟩], [⟨0.68, 0, 0, 0.32⟩, ⟨0.32, 0, 0, -0.32⟩]] = some (forest, []) := by
+  simp [MTree.restruct, restructL, attach]
+example : (MTree.node 1 [.node 0.6 [.leaf 0, .leaf 0], .leaf 0]).posNodes := by
+  simp [MTree.posNodes, posNodesL]; norm_num
+example : List.Forall₂ GoodNode (MTree.node 1 [.node 0.6 [.leaf 0, .leaf 0], .leaf 0]).specs
+      [[⟨0.3, 0, 0, 0.3⟩, ⟨0.3, 0, 0, -0.3⟩], [⟨0.68, 0, 0, 0.32⟩, ⟨0.32, 0, 0, -0.32⟩]] := by
+  simp only [MTree.specs, specsL, List.nil_append, List.append_nil, List.cons_append]
+  refine List.Forall₂.cons ⟨?_, ?_, ?_⟩ (List.Forall₂.cons ⟨?_, ?_, ?_⟩ List.Forall₂.nil)
+  · simp [sumV4, V4.add]; norm_num
+  · intro p hp; simp at hp; rcases hp with h | h <;> rw [h] <;> norm_num
+  · simp [OnShell, V4.m2, V4.dot, MTree.mass]
+  · simp [sumV4, V4.add]; norm_num
+  · intro p hp; simp at hp; rcases hp with h | h <;> rw [h] <;> norm_num
+  · simp [OnShell, V4.m2, V4.dot, MTree.mass, Regular, V4.boostVector, V3.norm2, eps]; norm_num
 
 end TfPwaV.C10
